@@ -75,7 +75,7 @@ type impCfg struct {
 	Ov    map[string]string
 	Used  map[string]bool
 	Shape int // 0: one parenthesised block; 1: one declaration per import; 2: "C" in its own first block
-	Lit   int // form of the import path literals: 0 "a/x", 1 raw `a/x`, 2 interpreted with an escape "a\x2fx"
+	Lit   int // form of the import path literals: 0 "a/x", 1 raw `a/x`, 2 interpreted with an escape "a\x2fx", 3 "a/x" in a hand-made spec (literal with its text only, Kind unset)
 }
 
 func (c impCfg) key() string {
@@ -170,6 +170,19 @@ func impRun(c impCfg) (*impObs, string) {
 	f, err := decorator.Parse(src)
 	if err != nil {
 		return nil, "harness: " + err.Error()
+	}
+	if c.Lit == 3 {
+		// the import specs as a user writes them by hand: &dst.ImportSpec{Name: ..., Path: &dst.BasicLit{Value: `"a/x"`}}
+		// (go/printer never looks at the Kind of a literal)
+		dst.Inspect(f, func(n dst.Node) bool {
+			if is, ok := n.(*dst.ImportSpec); ok {
+				is.Path = &dst.BasicLit{Value: is.Path.Value}
+				if is.Name != nil {
+					is.Name = dst.NewIdent(is.Name.Name)
+				}
+			}
+			return true
+		})
 	}
 	used := []string{}
 	for i, p := range impPaths {
@@ -313,7 +326,7 @@ func checkC07(c *Ctx) {
 						cf.Src[p], cf.Ov[p], cf.Used[p] = s, o, u
 						add(cf)
 						if variant == 0 { // the same configuration with the other forms of path literal
-							for lit := 1; lit <= 2; lit++ {
+							for lit := 1; lit <= 3; lit++ {
 								cl := impCfg{Src: cf.Src, Ov: cf.Ov, Used: cf.Used, Shape: cf.Shape, Lit: lit}
 								add(cl)
 							}
@@ -324,7 +337,7 @@ func checkC07(c *Ctx) {
 		}
 	}
 	for len(cfgs) < n {
-		cf := impCfg{Src: map[string]string{}, Ov: map[string]string{}, Used: map[string]bool{}, Shape: r.Intn(3), Lit: []int{0, 0, 1, 2}[r.Intn(4)]}
+		cf := impCfg{Src: map[string]string{}, Ov: map[string]string{}, Used: map[string]bool{}, Shape: r.Intn(3), Lit: []int{0, 0, 1, 2, 3}[r.Intn(5)]}
 		for _, p := range impPaths {
 			if p == "C" {
 				cf.Src[p], cf.Ov[p], cf.Used[p] = []string{"absent", ""}[r.Intn(2)], "unset", false
